@@ -93,7 +93,24 @@ def _rand_axis_index(rng, n, allow_arr=True, allow_int=True):
     return {'t': 'slice', 'v': [None, None, None]}
 
 
+def _has_negstep_open_start(spec):
+    specs = spec['v'] if spec['t'] == 'tup' else [spec]
+    for sp in specs:
+        if sp['t'] == 'slice':
+            a, b, c = sp['v']
+            if c is not None and c < 0 and a is None and b is not None:
+                return True
+    return False
+
+
 def rand_index(rng, shape, flat, safe=False):
+    while True:
+        s = _rand_index(rng, shape, flat, safe)
+        if not (safe and _has_negstep_open_start(s)):
+            return s
+
+
+def _rand_index(rng, shape, flat, safe=False):
     """Random index spec valid for a source of `shape`; returns spec. `safe` avoids the forms with
     known indexer defects (non-tuple int / 1-D array into a rank>=2 non-flat source)."""
     if flat or len(shape) == 1:
@@ -316,7 +333,9 @@ def gen_md(rng, **kw):
             c['poly'][od['name']] = [rand_poly(rng, in_elems, o['max_deg']) for _ in range(size)]
             outs.append((ci, od))
         comps.append(c)
-    md = {'groups': groups, 'comps': comps, 'conns': conns}
+    md = {'groups': groups, 'comps': comps, 'conns': conns, 'cyclic': False}
+    if o['cycles']:
+        _add_feedback(rng, md)
     _assign_styles(rng, md)
     if o['shuffle_order']:
         order = list(range(len(comps)))
@@ -325,6 +344,30 @@ def gen_md(rng, **kw):
     else:
         md['add_order'] = list(range(len(comps)))
     return md
+
+
+def _add_feedback(rng, md):
+    """Add 1-2 feedback connections (a later component's output into an earlier component), which
+    creates cycles in the data-flow graph. The new input enters one output linearly."""
+    comps = md['comps']
+    expl = [ci for ci, c in enumerate(comps) if c['kind'] == 'explicit']
+    if len(expl) < 2:
+        return
+    for n in range(rng.randint(1, 2)):
+        a, b = sorted(rng.sample(expl, 2))
+        A, B = comps[a], comps[b]
+        od = rng.choice(B['outs'])
+        iname = 'fb%d' % n
+        if any(i['name'] == iname for i in A['ins']):
+            continue
+        A['ins'].append({'name': iname, 'shape': list(od['shape']), 'units': od['units']})
+        j = len(A['ins']) - 1
+        e0 = len(A['in_elems'])
+        A['in_elems'].extend((j, e) for e in range(int(np.prod(od['shape']))))
+        oname = A['outs'][0]['name']
+        A['poly'][oname][0].append({'c': rat(F(1, 8)), 'mon': [[e0, 1]]})
+        md['conns'].append({'tgt': [a, iname], 'src': [b, od['name']], 'chain': [], 'style': None})
+        md['cyclic'] = True
 
 
 def comp_path(c):
@@ -598,7 +641,11 @@ def build_problem(md, log=None, cfg=None):
             return gobj[g]
         parent, _, name = g.rpartition('.')
         gobj[g] = need_group(parent).add_subsystem(name, om.Group())
+        if cfg.get('auto_order'):
+            gobj[g].options['auto_order'] = True
         return gobj[g]
+    if cfg.get('auto_order'):
+        model.options['auto_order'] = True
     cobj = {}
     for ci in md['add_order']:
         c = md['comps'][ci]
